@@ -14,10 +14,11 @@ theorem ts_correct (hP : P.length < 65536)
   intro fuel
   induction fuel with
   | zero =>
-    intro e opts c c' slot sc rs pool ps n cur env env' s s' v _ _ _ _ _ _ _ hc
+    intro e opts c c' slot sc rs pool ps n cur env env' s s' v _ _ _ _ _ _ _ _ hc
     simp [cValue] at hc
   | succ fuel ih =>
-    intro e opts c c' slot sc rs pool ps n cur env env' s s' v ht hh hs hp hl htop hTS hc hsem hE
+    intro e opts c c' slot sc rs pool ps n cur env env' s s' v ht hh hs hp hl htop hm hTS hc hsem hE
+    have ML : MLAt G (TS G) false fuel := fun h => absurd h (by simp)
     cases hTS with
     | lit w hw =>
       rw [cValue_lit_o fuel opts ht hh w hw c] at hc
@@ -82,7 +83,7 @@ theorem ts_correct (hP : P.length < 65536)
         rw [hq] at hcc
         exact Correct2.recur p f0 rest V P (q := q) (Correct2.weaken p f0 rest V P _
           (call1_core p f0 rest V P hP hK FF G (TS G) false fuel ih f a hna hG hTa { c with cur := q } cq slot0 sc rs pool ps n2 (posOf cur pp) env env'
-            s s_a s' va v hs hp hl htop hcc hsa happ hE))
+            s s_a s' va v hs hp hl htop hm hcc hsa happ hE))
     | doo body pp hT =>
       rw [cValue_do_o fuel opts ht hh body pp c] at hc
       obtain ⟨q, hq⟩ := curAt_eq c pp
@@ -98,8 +99,8 @@ theorem ts_correct (hP : P.length < 65536)
         subst henv
         rw [hq] at hcc
         exact Correct2.recur p f0 rest V P (q := q)
-          (do_core p f0 rest V P G (TS G) false fuel ih body hT opts { c with cur := q } cq slot0 sc rs pool ps n2 (posOf cur pp) env' envb s s' v
-            ht hh hs hp hl hcc hseq hE)
+          (do_core p f0 rest V P G (TS G) false fuel ih ML body hT opts { c with cur := q } cq slot0 sc rs pool ps n2 (posOf cur pp) env' envb s s' v
+            ht hh hs hp hl hm hcc hseq hE)
     | ups body pp hT =>
       rw [cValue_upscope_o fuel opts ht hh body pp c] at hc
       obtain ⟨q, hq⟩ := curAt_eq c pp
@@ -117,8 +118,8 @@ theorem ts_correct (hP : P.length < 65536)
           rw [eval_upscope] at hsem
           rw [hq] at hcc
           exact Correct2.recur p f0 rest V P (q := q)
-            (doBody_correct p f0 rest V P G (TS G) false fuel ih body hT opts { c with cur := q } cq slot0 sc rs pool ps n2 (posOf cur pp) env env' s s' v
-              ht hh hs hp hl htop hcc hsem hE)
+            (doBody_correct p f0 rest V P G (TS G) false fuel ih ML body hT opts { c with cur := q } cq slot0 sc rs pool ps n2 (posOf cur pp) env env' s s' v
+              ht hh hs hp hl htop hm hcc hsem hE)
     | deff x ve pp hGx hTv =>
       rw [cValue_def_o fuel opts ht hh x ve pp c] at hc
       obtain ⟨q, hq⟩ := curAt_eq c pp
@@ -135,7 +136,7 @@ theorem ts_correct (hP : P.length < 65536)
         rw [hq] at hcc
         exact Correct2.recur p f0 rest V P (q := q) (Correct2.weaken p f0 rest V P _
           (def_core p f0 rest V P hP hK G (TS G) false fuel ih x ve hGx hTv { c with cur := q } cq slot0 sc rs pool ps n2 (posOf cur pp) env env1 s s1 v
-            hs hp hl htop hcc hev hE))
+            hs hp hl htop hm hcc hev hE))
 
 /-- for the statement fragment the value is in the result slot also when the form is compiled with the drop flag -/
 theorem ts_correct_strong (hP : P.length < 65536)
@@ -147,7 +148,8 @@ theorem ts_correct_strong (hP : P.length < 65536)
     (hT : TS G e) (hc : cValue fuel opts e c = some (slot, c')) (hsem : eval n cur env e s = .ok (v, env') s')
     (hE : EnvS G c.scopes env s.boxes.size sc.ra) :
     Correct2 p f0 rest V P G false c c' slot sc rs pool ps env env' s s' v := by
-  have h := ts_correct p f0 rest V P hP hK FF G fuel e opts c c' slot sc rs pool ps n cur env env' s s' v ht hh hs hp hl htop hT hc hsem hE
+  have h := ts_correct p f0 rest V P hP hK FF G fuel e opts c c' slot sc rs pool ps n cur env env' s s' v ht hh hs hp hl htop
+    (fun h => absurd h (by simp)) hT hc hsem hE
   rw [Bool.and_false] at h
   exact h
 
